@@ -162,6 +162,36 @@ theorem Pool.interleaving_independent (reqs : Nat → Input σ α) (sched : List
     Pool.run reqs (fun _ => .idle) sched q = .done (serve (reqs q)) := by
   rw [Pool.run_eq]; exact advanceN_ge_two _ _ h
 
+/-- **admit_iff under concurrency.**  Whatever else is in flight and however the sections are
+scheduled, a request that has run its sections ended in its handler — with `info` in the request
+context — if and only if its OWN credential, verifier outcome, scopes and expiry check out. -/
+theorem Pool.admit_iff (reqs : Nat → Input σ α) (sched : List Nat) (q : Nat) (h : 2 ≤ sched.count q)
+    (info : Info σ α) :
+    Pool.run reqs (fun _ => .idle) sched q = .done (.next info) ↔
+      ∃ tok, Credential (reqs q).header tok ∧
+        ((reqs q).verifier tok).err = none ∧ ((reqs q).verifier tok).info = some info ∧
+        (∀ sc ∈ (eff (reqs q).opts).scopes, sc ∈ info.scopes) ∧
+        Unexpired info.exp (eff (reqs q).opts) (reqs q).now := by
+  rw [Pool.interleaving_independent reqs sched q h, ← Bearer.admit_iff]
+  constructor
+  · intro h'; injection h'
+  · intro h'; rw [h']
+
+/-- The verifier is entered by a request only with the token of that request's own credential. -/
+theorem Pool.in_verifier_own_token (reqs : Nat → Input σ α) (sched : List Nat) (q : Nat) (tok : List Char)
+    (h : Pool.run reqs (fun _ => .idle) sched q = .inVerifier tok) : credential (reqs q).header = some tok := by
+  rw [Pool.run_eq] at h
+  generalize sched.count q = n at h
+  match n with
+  | 0 => simp [advanceN] at h
+  | 1 =>
+    simp only [advanceN, advance] at h
+    cases hc : credential (reqs q).header with
+    | none => simp [hc] at h
+    | some t => simp [hc] at h; rw [h]
+  | k + 2 =>
+    rw [advanceN_ge_two _ _ (by omega)] at h; cases h
+
 /-- Non-vacuity: two requests entering the verifier one after the other and leaving in the other order. -/
 example (reqs : Nat → Input σ α) :
     Pool.run reqs (fun _ => .idle) [0, 1, 1, 0] 0 = .done (serve (reqs 0)) ∧
